@@ -6,6 +6,7 @@ From SF Require Import Base.Prelude Gen.Generated Unsized.Types Unsized.Parse Un
 From SF Require Import Unsized.Proofs.EncodeParse Unsized.Proofs.Mem Unsized.Proofs.Notify Unsized.Proofs.Flat Unsized.Proofs.Layout
   Unsized.Proofs.Table Unsized.Proofs.Path Unsized.Proofs.Context Unsized.Proofs.Context2 Unsized.Proofs.Focus Unsized.Proofs.Pos
   Unsized.Proofs.FocusOps Unsized.Proofs.NotifyInside Unsized.Proofs.Resize.
+From SF Require Import Unsized.Proofs.EnumFacts.
 
 Arguments Z.add : simpl never.
 Arguments Z.sub : simpl never.
